@@ -51,6 +51,11 @@ def annotate_real(text, style, multi, replace=True, merge=False, request="full")
         kw["spdx_expressions"] = {_LICENSING.parse("GPL-3.0-or-later")}
     if request in ("full", "copyright-only"):
         kw["copyright_lines"] = {"SPDX-FileCopyrightText: 2020 Jane Doe"}
+    if request == "two-years":
+        from reuse.cli.annotate import get_year
+        from reuse.copyright import make_copyright_line
+
+        kw["copyright_lines"] = {make_copyright_line("Jane Doe", get_year(["2016", "2019"], False), "spdx")}
     if request in ("full", "contributor-only"):
         kw["contributor_lines"] = {"Alice Example"}
     info = ReuseInfo(**kw)
